@@ -3,7 +3,6 @@ module verif/harness/obf
 go 1.23.0
 
 require (
-	github.com/cyrildever/feistel v1.5.5
 	github.com/open-telemetry/otel-arrow/collector/processor/obfuscationprocessor v0.0.0
 	go.opentelemetry.io/collector/component v1.29.0
 	go.opentelemetry.io/collector/consumer v1.29.0
@@ -15,6 +14,7 @@ require (
 )
 
 require (
+	github.com/cyrildever/feistel v1.5.5 // indirect
 	github.com/cyrildever/go-utls v1.9.7 // indirect
 	github.com/ethereum/go-ethereum v1.13.1 // indirect
 	github.com/fatih/color v1.15.0 // indirect
